@@ -124,4 +124,14 @@ var props = map[string]propDef{
 		Thorough:       budget{Runs: 20000, Chunk: 100, Wall: 40 * time.Minute, PerChunkGrace: 5 * time.Minute},
 		MinimiseBudget: 60 * time.Second,
 	},
+	"C42": {
+		Binary: "dsim-store", Harness: "C42", Level: "exploration",
+		Rule: "each run = 2-4 client tasks under the seeded S1 scheduler on one blobstore: LocalBlobstore (one instance per task on a shared directory, parked at a per-run subset of file-operation classes; the blocking flock of its manifest lock is emulated as a scheduling point; versions are simulated nanosecond mtimes) or InMemoryBlobstore (one shared object, parked before every interface call). Part blob: each task loops Get(manifest) -> CheckAndPutManifest(read version, unique contents); the history is checked with porcupine against a versioned register (a failed check-and-put changes nothing) and every version must always read back with the contents it was written with; ride-along: blobs of 1-700 bytes read through prefix, inner, suffix and negative-offset ranges and Concatenate, against a byte-slice model. Part stack: NewNoConjoinBSStore over the same blobstore runs the C02 committer + fresh-reader workload with the C02 oracle. One evaluation = one range read or fresh-reader verification. Non-trivial = at least one context switch; distinct by executed-schedule hash.",
+		Assumptions: []string{"mtime-as-version is checked with nanosecond, strictly increasing simulated stamps (a monotone clock and a nanosecond file system); coarser mtime granularity or backward clock steps are outside what the statement promises and are not asserted", "the git-backed blobstore and the cloud blobstores are not covered (they need a git subprocess / network service outside the simulator)", "the byte-range and Concatenate checks are input-quantified and ride along as workload; the claimed part is the conditional update under interleaving"},
+		Real:        append([]string{"go/store/blobstore LocalBlobstore, InMemoryBlobstore", "go/store/nbs blobstoreManifest + blobstorePersister (part stack)"}, storeReal...), Stub: append([]string{"flock(2) blocking mode (retry loop around scheduling points)", "goroutine scheduling (seeded S1 scheduler)", "file mtimes (simulated clock)"}, storeStub...), Persistence: "not used",
+		ExpectProbes:   []string{"cas_ok", "cas-contention", "context-switch", "porcupine_ok", "commit_ok"},
+		Quick:          budget{Runs: 300, Chunk: 20, Wall: 150 * time.Second, PerChunkGrace: 120 * time.Second},
+		Thorough:       budget{Runs: 20000, Chunk: 100, Wall: 40 * time.Minute, PerChunkGrace: 5 * time.Minute},
+		MinimiseBudget: 60 * time.Second,
+	},
 }
